@@ -836,3 +836,37 @@ def date_datetime_values(c):
     c.check('lexical_space', in_lexical_space(c, 'date', s), detail=repr(s))
     back = c.run(prot.from_unicode, Date, s)
     c.check('decodes_to_the_day', back.returned and back.value == v.date(), detail=(repr(s), repr(back)))
+
+
+def _text_protocols():
+    """every protocol class of the package that reads primitives from their text form (some override single readers)"""
+    from spyne.protocol.http import HttpRpc
+    from spyne.protocol.soap import Soap12
+    # (the dict-document protocols carry booleans and numbers natively, not as text: C02 / C04)
+    return dict(PROTS, HttpRpc=HttpRpc, Soap12=Soap12)
+
+
+CANONICAL_LITERALS = [(Boolean, 'true', True), (Boolean, 'false', False), (Boolean, '1', True), (Boolean, '0', False),
+                      (Integer, '0', 0), (Integer, '-1', -1), (Integer, '+7', 7), (Integer, '007', 7),
+                      (Decimal, '1.50', decimal.Decimal('1.50')), (Decimal, '-0', decimal.Decimal('0')),
+                      (Double, '1.5', 1.5), (Double, '1e3', 1000.0), (Double, '-0.0', 0.0)]
+
+
+@obligation('C08.literals.every_protocol', targets=['spyne.protocol._inbase:InProtocolBase.from_bytes',
+                                                    'spyne.protocol._inbase:InProtocolBase.from_unicode',
+                                                    'spyne.protocol.http:HttpRpc.boolean_from_bytes'],
+            bounded="13 literals of xs:boolean / xs:integer / xs:decimal / xs:double x 5 protocol classes (those of C08's "
+                    "other obligations plus HttpRpc and Soap12), from text",
+            desc="each protocol class -- several override single readers -- reads every literal of the type's lexical space as "
+                 "the value it denotes")
+def literals_every_protocol(c):
+    prots = _text_protocols()
+    P = c.choose(sorted(prots), 'protocol')
+    prot = prots[P]()
+    as_bytes = False      # on Python 3 every transport of the package hands the readers text (element text, query strings)
+    bad = []
+    for T, lit, want in CANONICAL_LITERALS:
+        o = c.run(prot.from_bytes, T, lit.encode('ascii')) if as_bytes else c.run(prot.from_unicode, T, lit)
+        if not (o.returned and o.value == want and type(o.value) is type(want)):
+            bad.append((T.__name__, lit, repr(o)[:100]))
+    c.check('every_literal_read_as_its_value', not bad, detail=bad[:4])
